@@ -25,11 +25,18 @@ Inductive countop :=
 (* the branches of the if/else-if chain in GenerateDataView, in source order *)
 Inductive dkind := KRelation | KTuple | KPrimitive | KEnum | KUnknown.
 
+(* the test by which GenerateDataView keeps an entity in a per-application view (dataParam.Epname) *)
+Inductive viewtest :=
+| ViewAppEq        (* strings.Split(entityName, ".")[0] != appName  -> continue : equality of the application part *)
+| UnknownView.     (* anything else (a prefix test, a different operand, ...) *)
+
 Record shape := {
   sh_rel_key : keyform; sh_prim_key : keyform; sh_tuple_key : keyform; sh_enum_key : keyform;
   sh_rel_target : targetform;
+  sh_rel_guards_short_path : bool;  (* DrawRelation tests len(ref.Path) < 2 before indexing Path[0] / Path[1] *)
   sh_rel_checks_target : bool;      (* DrawRelation skips the relationship when viewParam.Types has no such table *)
   sh_rel_count_new : countop; sh_rel_count_again : countop;
   sh_tuple_count_new : countop; sh_tuple_count_again : countop;
-  sh_dispatch : list dkind
+  sh_dispatch : list dkind;
+  sh_view : viewtest
 }.
